@@ -8,6 +8,7 @@
 #include "common.h"
 #include <dsplib.h>
 #include <complex>
+#include <memory>
 
 using namespace dsplib;
 using vh::Json;
@@ -393,6 +394,11 @@ static void run_czt(Json& js, vh::Rng& rng, long budget) {
 
 // ---------------------------------------------------------------- C02: inverses
 static void run_inv(Json& js, vh::Rng& rng, int a, int b) {
+    // a long-lived inverse real plan of an earlier length, used again after plans of other lengths were built
+    std::unique_ptr<IfftPlanR> held;
+    int heldn = 0;
+    arr_cmplx heldX;
+    arr_real heldx;
     for (int n = std::max(1, a); n < b; ++n) {
         const double bound = 64.0 * n * EPS;
         for (int cls : {0, 2, 4, 5, 7}) {
@@ -447,6 +453,20 @@ static void run_inv(Json& js, vh::Rng& rng, int a, int b) {
             const arr_cmplx X2 = fft(y);
             js.begin("Inv").str("api", "fft_irfft").num("n", n).str("cls", "gauss").str("o", "ret").num("outlen", X2.size())
               .boolean("finite", true).num("err_milli", milli(maxdiff_rel(X2, X), bound)).end();
+            if (held) {
+                const arr_real yh = (*held)(heldX);
+                LD numh = 0, denh = 0;
+                for (int i = 0; i < heldn; ++i) {
+                    numh += (LD)(yh[i] - heldx[i]) * (yh[i] - heldx[i]);
+                    denh += (LD)heldx[i] * heldx[i];
+                }
+                js.begin("Inv").str("api", "IfftPlanR_held").num("n", heldn).str("cls", "gauss").str("o", "ret").num("outlen", yh.size())
+                  .boolean("finite", true).num("err_milli", milli(denh == 0 ? 0 : (double)sqrtl(numh / denh), 64.0 * heldn * EPS)).end();
+            }
+            if (!held || rng.range(0, 3) == 0) {
+                held.reset(new IfftPlanR(n));
+                heldn = n, heldX = X, heldx = xra;
+            }
             IfftPlanR pr(n);
             const arr_real y3 = pr(X);
             LD num = 0, den = 0;
